@@ -21,14 +21,15 @@
 (* (a sender may also wait while the pump copies), each of which is        *)
 (* deterministic on the real code.                                         *)
 (*                                                                         *)
-(* Channels: "c" (exists at the start, except in situation "nochan") and   *)
-(* "d" (created by GETD).  Messages: "m1" (published during the set-up)    *)
+(* Channels: "c" (exists at the start, except in situation "nochan";       *)
+(* GETC asks for it again, e.g. while it is being deleted) and "d"         *)
+(* (created by GETD).  Messages: "m1" (published during the set-up)        *)
 (* and "m2" (published by PUT).                                            *)
 (***************************************************************************)
 EXTENDS Integers, Sequences, FiniteSets, TLC
 
-CONSTANTS OpA, OpB, OpC,       \* "PUT" | "GETD" | "DELC" | "PAUSE" | "UNPAUSE" | "TEXIT" | "TDELETE" | "NONE"
-          Situation,           \* "idle" | "held" | "paused" | "nochan"
+CONSTANTS OpA, OpB, OpC,       \* "PUT" | "GETD" | "GETC" | "DELC" | "PAUSE" | "UNPAUSE" | "TEXIT" | "TDELETE" | "NONE"
+          Situation,           \* "idle" | "held" | "paused" | "nochan" | "backlog" (m1 already sits in c's queue)
           Handshake,           \* GetChannel's creator waits until the pump has taken the new channel list (as coded)
           RefreshHonoursPause, \* a channel-list refresh keeps a paused topic's queue unselected (as coded)
           JoinShakes           \* a GetChannel that finds the channel in the map does the handshake too (its creator may
@@ -48,7 +49,8 @@ VARIABLES cmap,     \* channelMap: set of channel names
           closed,   \* Topic.exit(false) finished: channels closed, queue flushed, backend closed
           tgone,    \* Topic.exit(true) finished
           rl,       \* operations holding the topic's read lock across a yield point
-          creator,  \* the operation that put "d" in the map ("" = nobody yet)
+          creator,  \* channel -> the operation that put it in the map and has yet to tell the pump ("" = nobody)
+          cgen,     \* channel -> how many times a channel of that name has been created
           pc,       \* actor -> next segment (1..), 0 = done
           waitr,    \* the operation blocked in a channelUpdateChan / pauseChan send, or waiting for the pump to stop, while
                     \* the pump is busy copying ("" = nobody)
@@ -59,33 +61,38 @@ VARIABLES cmap,     \* channelMap: set of channel names
           acked, failed, owed, known, mcount, dup, handed, pauseAck, late,
           cdisk, tdisk, ackedAtExit, knownAtExit, sched, porder
 
-vars == <<cmap, cst, cq, tq, cache, psel, ppc, pmsg, prem, tpaused, flag, exch, closed, tgone, rl, creator, pc, npend, waitr,
+vars == <<cmap, cst, cq, tq, cache, psel, ppc, pmsg, prem, tpaused, flag, exch, closed, tgone, rl, creator, cgen, pc, npend, waitr,
           acked, failed, owed, known, mcount, dup, handed, pauseAck, late, cdisk, tdisk, ackedAtExit, knownAtExit, sched, porder>>
 
 Actors == {"A", "B", "C"}
 Op(a) == CASE a = "A" -> OpA [] a = "B" -> OpB [] a = "C" -> OpC
 Chans == {"c", "d"}
-Segs(op) == CASE op = "PUT" -> 2 [] op = "GETD" -> 2 [] op = "DELC" -> 2 [] op = "PAUSE" -> 1 [] op = "UNPAUSE" -> 1
+Segs(op) == CASE op = "PUT" -> 2 [] op = "GETD" -> 2 [] op = "GETC" -> 2 [] op = "DELC" -> 6 [] op = "PAUSE" -> 1 [] op = "UNPAUSE" -> 1
               [] op = "TEXIT" -> 3 [] op = "TDELETE" -> 3 [] OTHER -> 0
 Alive(x) == cst[x] \in {"new", "live"}
+IsGet(op) == op \in {"GETD", "GETC"}
+XOf(op) == IF op = "GETC" THEN "c" ELSE "d"
+\* Channel.Delete() holds the channel's exitMutex from its first statement to its return: whoever needs that mutex waits
+\* (the pump's PutMessage to that channel, Topic.exit's Close / Delete of it)
+DelInside == \E b \in Actors : Op(b) = "DELC" /\ pc[b] \in 2..5
 
 Init ==
   /\ cmap = IF Situation = "nochan" THEN {} ELSE {"c"}
   /\ cst = [x \in Chans |-> IF x = "c" /\ Situation # "nochan" THEN "live" ELSE "none"]
-  /\ cq = [x \in Chans |-> {}]
+  /\ cq = [x \in Chans |-> IF x = "c" /\ Situation = "backlog" THEN {"m1"} ELSE {}]
   /\ tq = IF Situation \in {"paused", "nochan"} THEN {"m1"} ELSE {}
   /\ cache = cmap
-  /\ psel = (Situation \in {"idle", "held"})
+  /\ psel = (Situation \in {"idle", "held", "backlog"})
   /\ ppc = IF Situation = "held" THEN "copy" ELSE "sel"
   /\ pmsg = IF Situation = "held" THEN "m1" ELSE ""
   /\ prem = IF Situation = "held" THEN {"c"} ELSE {}
   /\ tpaused = (Situation = "paused") /\ pauseAck = (Situation = "paused")
   /\ flag = FALSE /\ exch = FALSE /\ closed = FALSE /\ tgone = FALSE
-  /\ rl = {} /\ creator = "" /\ npend = FALSE /\ waitr = ""
+  /\ rl = {} /\ creator = [x \in Chans |-> ""] /\ cgen = [x \in Chans |-> 0] /\ npend = FALSE /\ waitr = ""
   /\ pc = [a \in Actors |-> IF Segs(Op(a)) = 0 THEN 0 ELSE 1]
   /\ acked = IF Situation = "idle" THEN {} ELSE {"m1"}
   /\ failed = {}
-  /\ owed = IF Situation = "idle" THEN <<>> ELSE ("m1" :> cmap)
+  /\ owed = IF Situation = "idle" THEN <<>> ELSE ("m1" :> {<<x, 0>> : x \in cmap})
   /\ known = cmap
   /\ mcount = Cardinality(acked)
   /\ dup = FALSE /\ handed = FALSE /\ late = FALSE
@@ -117,37 +124,43 @@ Put(a) ==
                                                  \* (not while a sender waits: the pump's select would have two ready cases)
      /\ tq' = IF tgone THEN tq ELSE tq \cup {"m2"}
      /\ acked' = acked \cup {"m2"}
-     /\ owed' = owed @@ ("m2" :> {x \in known : Alive(x)})
+     /\ owed' = owed @@ ("m2" :> {<<x, cgen[x]>> : x \in {y \in known : Alive(y)}})
      /\ mcount' = mcount + 1
      /\ late' = (late \/ closed \/ tgone)         \* accepted by a topic that is already flushed / deleted
      /\ rl' = rl \ {a} /\ failed' = failed /\ Done(a)
 
-\* ---- Topic.GetChannel("d") (HTTP /channel/create) ------------------------
-GetD(a) ==
+\* ---- Topic.GetChannel(x) (HTTP /channel/create): GETD asks for "d", GETC for "c" ------
+Get(a, x) ==
   \/ /\ pc[a] = 1 /\ rl = {} /\ NFree            \* GetExistingTopic; t.Lock(); getOrCreateChannel; t.Unlock()
-     /\ IF "d" \in cmap
-        THEN /\ UNCHANGED <<cmap, creator>>       \* isNew = FALSE: no yield point on this path
+     /\ IF x \in cmap
+        THEN /\ UNCHANGED <<cmap, creator, cgen, cq>>  \* isNew = FALSE (the channel may be on its way out): no yield point here
              /\ JoinShakes => AtSelect            \* ... the handshake all the same (since fix 717c938)
-             /\ IF JoinShakes THEN Refresh(cmap, tpaused) /\ cst' = [cst EXCEPT !["d"] = IF @ = "new" THEN "live" ELSE @]
+             /\ IF JoinShakes THEN Refresh(cmap, tpaused) /\ cst' = [cst EXCEPT ![x] = IF @ = "new" THEN "live" ELSE @]
                               ELSE UNCHANGED <<cache, psel, cst>>
-             /\ known' = known \cup {"d"} /\ Done(a)
-        ELSE /\ cmap' = cmap \cup {"d"} /\ cst' = [cst EXCEPT !["d"] = "new"] /\ creator' = a
+             /\ known' = known \cup {x} /\ Done(a)
+        ELSE /\ cmap' = cmap \cup {x} /\ cst' = [cst EXCEPT ![x] = "new"] /\ creator' = [creator EXCEPT ![x] = a]
+             /\ cgen' = [cgen EXCEPT ![x] = @ + 1] /\ cq' = [cq EXCEPT ![x] = {}]     \* a new channel starts empty
              /\ known' = known /\ Adv(a)
              /\ UNCHANGED <<cache, psel>>
   \/ /\ pc[a] = 2                                                             \* t.channelUpdateChan <- 1
      /\ Handshake => AtSelect
      /\ IF Handshake THEN Refresh(cmap, tpaused) ELSE UNCHANGED <<cache, psel>>
-     /\ cst' = [cst EXCEPT !["d"] = IF @ = "new" THEN "live" ELSE @]
-     /\ known' = known \cup {"d"} /\ Done(a)
-     /\ UNCHANGED <<cmap, creator>>
+     /\ cst' = [cst EXCEPT ![x] = IF @ = "new" THEN "live" ELSE @]
+     /\ known' = known \cup {x} /\ Done(a)
+     /\ UNCHANGED <<cmap, creator, cgen, cq>>
 
 \* ---- Topic.DeleteExistingChannel("c") (HTTP /channel/delete) -------------
 DelC(a) ==
-  \/ /\ pc[a] = 1 /\ NFree                       \* lookup; channel.Delete()
+  \/ /\ pc[a] = 1 /\ NFree                       \* lookup; channel.Delete(): exitMutex; exit flag
+     /\ cst["c"] # "dying"                        \* (a second deleter would wait on the channel's exitMutex)
      /\ IF "c" \notin cmap THEN UNCHANGED <<cst, cq>> /\ Done(a)
-        ELSE cst' = [cst EXCEPT !["c"] = "dying"] /\ cq' = [cq EXCEPT !["c"] = {}] /\ Adv(a)
+        ELSE cst' = [cst EXCEPT !["c"] = "dying"] /\ cq' = cq /\ Adv(a)
      /\ UNCHANGED <<cmap, cache, psel>>
-  \/ /\ pc[a] = 2 /\ rl = {} /\ AtSelect /\ NFree \* t.Lock(); delete(map); t.Unlock(); t.channelUpdateChan <- 1; persist
+  \/ /\ pc[a] \in 2..4                            \* notify + close clients | Empty: reset | Empty: clients
+     /\ Adv(a) /\ UNCHANGED <<cmap, cst, cq, cache, psel>>
+  \/ /\ pc[a] = 5                                \* Empty: drain; backend.Empty(); backend.Delete(); exitMutex released
+     /\ cq' = [cq EXCEPT !["c"] = {}] /\ Adv(a) /\ UNCHANGED <<cmap, cst, cache, psel>>
+  \/ /\ pc[a] = 6 /\ rl = {} /\ AtSelect /\ NFree \* t.Lock(); delete(map); t.Unlock(); t.channelUpdateChan <- 1; persist
      /\ cmap' = cmap \ {"c"} /\ cst' = [cst EXCEPT !["c"] = "gone"] /\ cq' = cq
      /\ Refresh(cmap \ {"c"}, tpaused) /\ Done(a)
 
@@ -167,7 +180,7 @@ TExit(a) ==
   \/ /\ pc[a] = 2 /\ ppc = "sel"                  \* close(exitChan); waitGroup.Wait()
      /\ exch' = TRUE /\ ppc' = "exited" /\ Adv(a)
      /\ UNCHANGED <<flag, ackedAtExit, knownAtExit, closed, cdisk, tdisk>>
-  \/ /\ pc[a] = 3                                 \* channels Close (flush to their backends); t.flush(); backend.Close()
+  \/ /\ pc[a] = 3 /\ ~DelInside                   \* channels Close (flush to their backends); t.flush(); backend.Close()
      /\ cdisk' = [x \in Chans |-> IF x \in cmap /\ Alive(x) THEN cq[x] ELSE {}]
      /\ tdisk' = tq /\ closed' = TRUE /\ Done(a)
      /\ UNCHANGED <<flag, ackedAtExit, knownAtExit, exch, ppc>>
@@ -180,13 +193,13 @@ TDelete(a) ==
   \/ /\ pc[a] = 2 /\ ppc = "sel"
      /\ exch' = TRUE /\ ppc' = "exited" /\ Adv(a)
      /\ UNCHANGED <<flag, cmap, cst, cq, tq, tgone>>
-  \/ /\ pc[a] = 3 /\ rl = {} /\ NFree             \* t.Lock(); every channel deleted; t.Unlock(); t.Empty(); backend.Delete(); unlink; persist
+  \/ /\ pc[a] = 3 /\ rl = {} /\ NFree /\ ~DelInside \* t.Lock(); every channel deleted; t.Unlock(); t.Empty(); backend.Delete(); unlink; persist
      /\ cmap' = {} /\ cst' = [x \in Chans |-> IF x \in cmap THEN "gone" ELSE cst[x]]
      /\ cq' = [x \in Chans |-> {}] /\ tq' = {} /\ tgone' = TRUE /\ Done(a)
      /\ UNCHANGED <<flag, exch, ppc>>
 
-Spawns(a) == \/ Op(a) = "GETD" /\ pc[a] = 1 /\ "d" \notin cmap
-             \/ Op(a) = "DELC" /\ pc[a] = 1 /\ "c" \in cmap
+Spawns(a) == \/ IsGet(Op(a)) /\ pc[a] = 1 /\ XOf(Op(a)) \notin cmap
+             \/ Op(a) = "DELC" /\ pc[a] = 2
              \/ Op(a) = "TDELETE" /\ pc[a] \in {2, 3}
 
 Lower(a) == CASE a = "A" -> "a" [] a = "B" -> "b" [] a = "C" -> "c"
@@ -196,16 +209,16 @@ Lower(a) == CASE a = "A" -> "a" [] a = "B" -> "b" [] a = "C" -> "c"
 \* second case of that select ready, so that the real code has no choice either.
 Arrive(a) ==
   /\ pc[a] # 0 /\ waitr = "" /\ ppc = "copy" /\ ~(psel /\ tq # {})
-  /\ \/ /\ Op(a) = "GETD" /\ pc[a] = 2 /\ Handshake
+  /\ \/ /\ IsGet(Op(a)) /\ pc[a] = 2 /\ Handshake
         /\ UNCHANGED <<tpaused, exch, npend>>
-     \/ /\ Op(a) = "GETD" /\ pc[a] = 1 /\ "d" \in cmap /\ JoinShakes /\ rl = {} /\ NFree
+     \/ /\ IsGet(Op(a)) /\ pc[a] = 1 /\ XOf(Op(a)) \in cmap /\ JoinShakes /\ rl = {} /\ NFree
         /\ UNCHANGED <<tpaused, exch, npend>>
      \/ /\ Op(a) \in {"PAUSE", "UNPAUSE"} /\ pc[a] = 1 /\ rl = {} /\ NFree
         /\ tpaused' = (Op(a) = "PAUSE") /\ UNCHANGED <<exch, npend>>             \* the flag is stored before the send
      \/ /\ Op(a) \in {"TEXIT", "TDELETE"} /\ pc[a] = 2
         /\ exch' = TRUE /\ npend' = ((npend /\ rl # {}) \/ Op(a) = "TDELETE") /\ UNCHANGED tpaused
   /\ waitr' = a /\ sched' = sched \o Lower(a)
-  /\ UNCHANGED <<cmap, cst, cq, tq, cache, psel, ppc, pmsg, prem, flag, closed, tgone, rl, creator, pc,
+  /\ UNCHANGED <<cmap, cst, cq, tq, cache, psel, ppc, pmsg, prem, flag, closed, tgone, rl, creator, cgen, pc,
                  acked, failed, owed, known, mcount, dup, handed, pauseAck, late, cdisk, tdisk, ackedAtExit, knownAtExit, porder>>
 
 Step(a) ==
@@ -214,23 +227,23 @@ Step(a) ==
   /\ sched' = sched \o a
   /\ npend' = ((npend /\ rl # {}) \/ Spawns(a))
   /\ CASE Op(a) = "PUT" ->
-            Put(a) /\ UNCHANGED <<cmap, cst, cq, cache, psel, ppc, tpaused, flag, exch, closed, tgone, creator, known,
+            Put(a) /\ UNCHANGED <<cmap, cst, cq, cache, psel, ppc, tpaused, flag, exch, closed, tgone, creator, cgen, known,
                                   pauseAck, cdisk, tdisk, ackedAtExit, knownAtExit>>
-       [] Op(a) = "GETD" ->
-            GetD(a) /\ UNCHANGED <<cq, tq, ppc, tpaused, flag, exch, closed, tgone, rl, acked, failed, owed, mcount, late,
+       [] IsGet(Op(a)) ->
+            Get(a, XOf(Op(a))) /\ UNCHANGED <<tq, ppc, tpaused, flag, exch, closed, tgone, rl, acked, failed, owed, mcount, late,
                                    pauseAck, cdisk, tdisk, ackedAtExit, knownAtExit>>
        [] Op(a) = "DELC" ->
-            DelC(a) /\ UNCHANGED <<tq, ppc, tpaused, flag, exch, closed, tgone, rl, creator, acked, failed, owed, known,
+            DelC(a) /\ UNCHANGED <<tq, ppc, tpaused, flag, exch, closed, tgone, rl, creator, cgen, acked, failed, owed, known,
                                    mcount, late, pauseAck, cdisk, tdisk, ackedAtExit, knownAtExit>>
        [] Op(a) \in {"PAUSE", "UNPAUSE"} ->
             Pause(a, Op(a) = "PAUSE")
-            /\ UNCHANGED <<cmap, cst, cq, tq, cache, ppc, flag, exch, closed, tgone, rl, creator, acked, failed, owed,
+            /\ UNCHANGED <<cmap, cst, cq, tq, cache, ppc, flag, exch, closed, tgone, rl, creator, cgen, acked, failed, owed,
                            known, mcount, late, cdisk, tdisk, ackedAtExit, knownAtExit>>
        [] Op(a) = "TEXIT" ->
-            TExit(a) /\ UNCHANGED <<cmap, cst, cq, tq, cache, psel, tpaused, tgone, rl, creator, acked, failed, owed,
+            TExit(a) /\ UNCHANGED <<cmap, cst, cq, tq, cache, psel, tpaused, tgone, rl, creator, cgen, acked, failed, owed,
                                     known, mcount, late, pauseAck>>
        [] Op(a) = "TDELETE" ->
-            TDelete(a) /\ UNCHANGED <<cache, psel, tpaused, closed, rl, creator, acked, failed, owed, known, mcount, late,
+            TDelete(a) /\ UNCHANGED <<cache, psel, tpaused, closed, rl, creator, cgen, acked, failed, owed, known, mcount, late,
                                       pauseAck, cdisk, tdisk, ackedAtExit, knownAtExit>>
   /\ UNCHANGED <<pmsg, prem, dup, handed, porder>>
 
@@ -248,13 +261,13 @@ PTake ==
 
 PCopy ==
   /\ ppc = "copy"
-  /\ \E x \in prem :
+  /\ \E x \in {y \in prem : ~(y = "c" /\ DelInside)} :      \* (PutMessage to a channel inside its Delete() waits for exitMutex)
        LET last  == prem = {x}
            hs    == last /\ waitr # ""               \* back in the select: the waiting sender's case is the only ready one
            wop   == IF hs THEN Op(waitr) ELSE "NONE"
            exits == wop \in {"TEXIT", "TDELETE"}      \* exitChan is closed: the pump ends
-           cache1 == IF wop = "GETD" THEN cmap ELSE cache
-           psel1 == CASE wop = "GETD" -> (cmap # {} /\ (RefreshHonoursPause => ~tpaused))
+           cache1 == IF IsGet(wop) THEN cmap ELSE cache
+           psel1 == CASE IsGet(wop) -> (cmap # {} /\ (RefreshHonoursPause => ~tpaused))
                       [] wop \in {"PAUSE", "UNPAUSE"} -> (cache # {} /\ ~tpaused)
                       [] OTHER -> psel
            pack1 == IF wop \in {"PAUSE", "UNPAUSE"} THEN tpaused ELSE pauseAck
@@ -266,8 +279,8 @@ PCopy ==
        /\ cache' = cache1 /\ psel' = psel1 /\ pauseAck' = pack1
        /\ waitr' = IF hs THEN "" ELSE waitr
        /\ pc' = IF hs THEN [pc EXCEPT ![waitr] = IF exits THEN 3 ELSE 0] ELSE pc
-       /\ cst' = IF wop = "GETD" THEN [cst EXCEPT !["d"] = IF @ = "new" THEN "live" ELSE @] ELSE cst
-       /\ known' = IF wop = "GETD" THEN known \cup {"d"} ELSE known
+       /\ cst' = IF IsGet(wop) THEN [cst EXCEPT ![XOf(wop)] = IF @ = "new" THEN "live" ELSE @] ELSE cst
+       /\ known' = IF IsGet(wop) THEN known \cup {XOf(wop)} ELSE known
        /\ IF ~last
           THEN prem' = prem \ {x} /\ sched' = sched \o "+" /\ UNCHANGED <<tq, pmsg, ppc, handed>>
           ELSE IF takes                                                         \* the next message is there
@@ -278,7 +291,7 @@ PCopy ==
                     /\ UNCHANGED <<tq, handed>>
 
 Pump == (PTake \/ PCopy)
-        /\ UNCHANGED <<cmap, tpaused, flag, exch, closed, tgone, rl, creator, npend, acked, failed, owed,
+        /\ UNCHANGED <<cmap, tpaused, flag, exch, closed, tgone, rl, creator, cgen, npend, acked, failed, owed,
                        mcount, late, cdisk, tdisk, ackedAtExit, knownAtExit>>
 
 \* a pump that can take a message does so before anything else happens (it is woken at once and nothing gates it)
@@ -292,7 +305,8 @@ Terminal == (\A a \in Actors : pc[a] = 0) /\ ppc # "copy" /\ ~TakeEnabled
 \* been deleted since -- or still in the queue of a paused topic
 OwedDelivered ==
   (Terminal /\ ~flag) =>
-     \A m \in acked : \A x \in owed[m] : ~Alive(x) \/ m \in cq[x] \/ (m \in tq /\ tpaused)
+     \A m \in acked : \A o \in owed[m] :
+        LET x == o[1] IN cgen[x] # o[2] \/ ~Alive(x) \/ m \in cq[x] \/ (m \in tq /\ tpaused)
 \* C02: no channel gets a message twice
 NoDup == ~dup
 \* C03: a topic whose pause was acknowledged hands nothing more to its channels
@@ -302,7 +316,8 @@ CountMatches == mcount = Cardinality(acked)
 \* C05: what was acknowledged when the shutdown was requested is on disk for every channel known then
 ExitKeeps ==
   (Terminal /\ closed) =>
-     \A m \in ackedAtExit : \A x \in (owed[m] \cap knownAtExit) : ~Alive(x) \/ m \in cdisk[x] \/ m \in tdisk
+     \A m \in ackedAtExit : \A o \in {q \in owed[m] : q[1] \in knownAtExit} :
+        LET x == o[1] IN cgen[x] # o[2] \/ ~Alive(x) \/ m \in cdisk[x] \/ m \in tdisk
 \* every operation comes to an end
 NoStuck == TRUE
 
